@@ -566,15 +566,40 @@ def fails_of(c):
     return oracle(c.replay["cfg"], c.obs)
 
 
+def retry_killed(ctx, kbad, shard):
+    """A coqc process that died without a Coq error message (killed by the OOM killer / a signal on an
+    overloaded machine) proves nothing either way: recompile such shards once, one at a time."""
+    import re
+    still = []
+    for b in list(ctx.broken):
+        m = re.match(r"(K_(\d+))\.v:corr$", b.get("lemma", ""))
+        if b.get("kind") != "K" or not m or "Error" in b.get("detail", "") or "TIMEOUT" in b.get("detail", ""):
+            still.append(b)
+            continue
+        name, si = m.group(1), int(m.group(2))
+        path = ctx.build / (name + ".v")
+        r = ctx.coqc(name + "_retry", path.read_text(), timeout=3600)
+        if r.ok:
+            ctx.obligations = [(k, n, True if (k == "K" and n == b["lemma"]) else ok) for (k, n, ok) in ctx.obligations]
+            kbad = {i for i in kbad if not (si * shard <= i < (si + 1) * shard)}
+            ctx.notes.append("shard %s: first coqc process died without a Coq error (killed); recompiled successfully" % name)
+        else:
+            b["detail"] = (b.get("detail", "") + "\n[retry] " + r.out[-1200:])
+            still.append(b)
+    ctx.broken[:] = still
+    return kbad
+
+
 def run(ctx):
     core.import_nitime()
     ctx.check_props()
-    n = int(os.environ.get("C09_CASES") or ctx.scale(420, 2500))      # C09_CASES: development knob only
+    n = int(os.environ.get("C09_CASES") or ctx.scale(320, 1500))      # C09_CASES: development knob only
     cfgs = corpus_cfgs() + [gen_cfg(ctx.rng, ctx.quick) for _ in range(n)]
     cases = [make_case(c) for c in cfgs]
     kcases = [c for c in cases if c.err is None]
-    kbad = ctx.check_cases("K", HEADER, kcases, "check", shard=ctx.scale(28, 64), timeout=ctx.scale(2400, 3600),
+    kbad = ctx.check_cases("K", HEADER, kcases, "check", shard=ctx.scale(20, 64), timeout=ctx.scale(2400, 3600),
                            case_type="kcase")
+    kbad = retry_killed(ctx, kbad, ctx.scale(20, 64))
     bad = {id(kcases[i]) for i in kbad}
     for c in cases:
         if c.err is not None:
